@@ -317,11 +317,16 @@ func (e *c15Env) checkWorld(w *spec.World, mapSeeds int, seed int64) []*c15Findi
 			e.mu.Unlock()
 		}
 		// (a) plain repetition under different GOMAXPROCS
-		for _, procs := range []int{1, 16} {
+		for _, procs := range []int{1, 16, 4, 16} {
 			v := base
 			v.Kind, v.Procs = "rerun", procs
-			if f, d := compareResults(canon, e.run(w, v), false); f != "" {
+			got := e.run(w, v)
+			if f, d := compareResults(canon, got, false); f != "" {
 				report(v, f, d)
+			} else if canon.Crash == "" && got.Crash == "" && strings.Join(canon.Order, "\n") != strings.Join(got.Order, "\n") {
+				// the very same request answered with the same files in another order: the
+				// response (the plugin's output as protoc receives it) is not a function of the request
+				report(v, "<file-order>", fmt.Sprintf("same request, same binary: files listed as %v, then as %v", canon.Order, got.Order))
 			}
 			tup("rerun")
 		}
